@@ -1181,3 +1181,76 @@ def render_queue_walk(gen, spec, func_texts):
         '  %s.%s.loop eid fuel ms []' % (qs['class'], qs['method'])])
     func_texts.append(text)
     gen.items.append({'kind': 'method', 'name': '%s.%s' % (qs['class'], qs['method']), 'lines': [a, b], 'may_raise': True})
+
+
+# =================================================================================================
+# descriptors.py `flat_member_ids` (C14): the recursive walk over the members of a descriptor (`Py.Small.Descr`)
+def render_tree_walk(gen, spec, func_texts):
+    from harness import py2lean
+    mod = gen.mod
+    fname = spec['tree_walk']['func']
+
+    def bad(node, what):
+        raise py2lean.Py2LeanUnsupported(mod.relpath, node, '%s: %s' % (fname, what))
+    fn = mod.funcs.get(fname, [])
+    if len(fn) != 1:
+        bad(0, 'function not found exactly once')
+    fn = fn[0]
+    if [a.arg for a in fn.args.args] != ['descriptor'] or fn.args.vararg or fn.args.kwarg or fn.args.defaults:
+        bad(fn, 'parameters are not (descriptor)')
+    body = list(fn.body)
+    if body and isinstance(body[0], ast.Expr) and isinstance(body[0].value, ast.Constant):
+        body = body[1:]
+    if not (len(body) == 3 and _dump(body[0]) == _dump(ast.parse('ret = []').body[0])
+            and isinstance(body[1], ast.For) and not body[1].orelse
+            and _dump(body[1].target) == _dump(ast.Name('member', ast.Store()))
+            and _dump(body[1].iter) == _dump(ast.parse('descriptor.members', mode='eval').body)
+            and _dump(body[2]) == _dump(ast.parse('return ret').body[0])):
+        bad(fn, 'body is not `ret = []; for member in descriptor.members: …; return ret`')
+    if len(body[1].body) != 1 or not isinstance(body[1].body[0], ast.If):
+        bad(body[1], 'loop body is not one if / elif chain')
+    tests = {'ReplicationDescriptor': 'Py.Small.Descr.isReplication member',
+             'DelayedReplicationDescriptor': 'Py.Small.Descr.isDelayed member',
+             'FixedReplicationDescriptor': 'Py.Small.Descr.isFixed member',
+             'SequenceDescriptor': 'Py.Small.Descr.isSequence member'}
+
+    def arm(stmts):
+        out = []
+        for st in stmts:
+            d = _dump(st)
+            if d == _dump(ast.parse('ret.append(member.id)').body[0]):
+                out.append('let ret := ret ++ [Py.Small.Descr.idWith eid member]')
+            elif d == _dump(ast.parse('ret.append(member.factor.id)').body[0]):
+                out.append('let t ← Py.Small.Descr.factorId eid member')
+                out.append('let ret := ret ++ [t]')
+            elif d == _dump(ast.parse('ret.extend(%s(member))' % fname).body[0]):
+                out.append('let t ← %s eid fuel member' % fname)
+                out.append('let ret := ret ++ t')
+            else:
+                bad(st, 'statement is not in the table of the member walk')
+        return out
+    lines, node, first = [], body[1].body[0], True
+    while True:
+        t = node.test
+        if not (_is_call(t, 'isinstance', 2) and _dump(t.args[0]) == _dump(ast.Name('member', ast.Load()))
+                and isinstance(t.args[1], ast.Name) and t.args[1].id in tests):
+            bad(node, 'test is not isinstance(member, <descriptor class>)')
+        lines.append('        %sif %s then (do' % ('' if first else 'else ', tests[t.args[1].id]))
+        lines += ['            ' + x for x in arm(node.body)] + ['            pure ret)']
+        first = False
+        if len(node.orelse) == 1 and isinstance(node.orelse[0], ast.If):
+            node = node.orelse[0]
+            continue
+        lines.append('        else (do')
+        lines += ['            ' + x for x in arm(node.orelse)] + ['            pure ret)']
+        break
+    a, b, _ = mod.src(fn)
+    text = '\n'.join([
+        '/-- %s:%d-%d  `def %s` on descriptor objects by value (`eid`: the `id` of a Table B element); a call of the' % (mod.relpath, a, b, fname),
+        '    function itself passes one unit of fuel less (`.error .outOfFuel` at 0) -/',
+        'def %s {ε : Type} (eid : ε → Int) : Nat → Py.Small.Descr ε → Except Py.Exc (List Int)' % fname,
+        '  | 0, _ => .error .outOfFuel',
+        '  | fuel + 1, descriptor =>',
+        '    Py.forIn (Py.Small.Descr.membersOf descriptor) ([] : List Int) (fun (member : Py.Small.Descr ε) (ret : List Int) =>'] + lines + [')'])
+    func_texts.append(text)
+    gen.items.append({'kind': 'function', 'name': fname, 'lines': [a, b], 'may_raise': True})
